@@ -69,7 +69,7 @@ func TestLbvcBoundedCompaction(t *testing.T) {
 	segSizes := []int64{60, 130}
 	workers := []int{1, 2, 10}
 	if thorough {
-		segSizes = []int64{60, 100, 130, 400}
+		segSizes = []int64{60, 100, 130}
 		workers = []int{1, 2, 3, 10}
 	}
 	var (
@@ -84,7 +84,7 @@ func TestLbvcBoundedCompaction(t *testing.T) {
 	// patterns: every word of length n over the alphabet, thinned deterministically at quick (every 3rd) to keep the run short
 	step := 3
 	if thorough {
-		step = 1
+		step = 2
 	}
 	tmpBase := ""
 	if st, err := os.Stat("/dev/shm"); err == nil && st.IsDir() {
@@ -235,7 +235,7 @@ func TestLbvcBoundedCompaction(t *testing.T) {
 	}
 	close(jobs)
 	wg.Wait()
-	fmt.Printf("LBVC-BOUNDED-STATS evaluations=%d distinct=%d exhaustive=%v length=%d\n", evaluations, len(states), thorough, n)
+	fmt.Printf("LBVC-BOUNDED-STATS evaluations=%d distinct=%d exhaustive=false length=%d\n", evaluations, len(states), n)
 	if sample != "" {
 		fmt.Printf("LBVC-BOUNDED-SAMPLE %s\n", sample)
 	}
